@@ -11,7 +11,7 @@ from .common import (EXIT_DEADLOCK, EXIT_INVARIANT, EXIT_STEP_BUDGET, Plan, STRA
 from .elf import Elf
 from .family_fs import SIMSYS, read_syslog
 
-PRIOR_STATES = ["absent", "absent", "shorter", "longer", "random", "previous"]
+PRIOR_STATES = ["absent", "absent", "shorter", "longer", "random", "previous", "busy"]
 
 
 def first_diff_section(path_a, path_b):
@@ -49,7 +49,16 @@ def prepare_prior(state, out, rng, previous):
     except FileNotFoundError:
         pass
     if state == "absent":
-        return
+        return None
+    if state == "busy":
+        # the file at the output path is being executed (ETXTBSY on opening it for writing)
+        import subprocess
+        import time
+        shutil.copyfile("/bin/sleep", out)
+        os.chmod(out, 0o755)
+        p = subprocess.Popen([out, "600"], stdout=subprocess.DEVNULL, stderr=subprocess.DEVNULL)
+        time.sleep(0.02)
+        return p
     if state == "previous" and previous and os.path.exists(previous):
         shutil.copyfile(previous, out)
         os.chmod(out, 0o755)
@@ -193,7 +202,7 @@ def run_job(job):
             if only is not None and v not in only:
                 continue
             out = os.path.join(workdir, "out")
-            prepare_prior(prior, out, rng_for("prior", prior_bytes_seed), prev_good)
+            busy = prepare_prior(prior, out, rng_for("prior", prior_bytes_seed), prev_good)
             argv = ["-o", out] + class_args + [f"--threads={threads}"]
             if not fork:
                 argv.append("--no-fork")
@@ -210,6 +219,9 @@ def run_job(job):
                             "WILD_SIM_SYSFAULT_DIR": workdir, "WILD_SIM_SYSFAULT_LOG": syslog})
             plan = Plan(pseed, strategy, log_level=1, hash_seed=hash_seed)
             r = sim_link(argv, workdir, plan, tag=f"v{v}", env_extra=env)
+            if busy is not None:
+                busy.kill()
+                busy.wait()
             check_sim_health(r, f"det job {index} variant {v}")
             if sysfault:
                 _, fired = read_syslog(syslog)
@@ -233,6 +245,12 @@ def run_job(job):
                     "env": env, "plan": plan.to_json(), "prior": prior}
             if not res["samples"]:
                 res["samples"].append(desc)
+            if r.status != 0 and prior == "busy" and mode == "--update-in-place" and \
+                    "Text file busy" in r.err_text():
+                # The user insisted on writing in place and the kernel refuses while the file is
+                # being executed: a legitimate, history-caused failure, not an outcome difference.
+                c["busy_update_in_place_refused"] = c.get("busy_update_in_place_refused", 0) + 1
+                continue
             if r.status != 0:
                 # Not a determinism question by itself; but a class whose link fails only sometimes
                 # is a violation of "the result doesn't depend on the schedule".
